@@ -3,7 +3,10 @@ from vlib import common as C
 from vlib.runner import Prop
 
 INS = {"jmp": (b"\xe9\0\0\0\0", 1, 0), "call": (b"\xe8\0\0\0\0", 1, 0), "jcc": (b"\x0f\x85\0\0\0\0", 2, 0),
-       "lea": (b"\x48\x8d\x05\0\0\0\0", 3, 1), "nop": (b"\x90", None, None), "ret": (b"\xc3", None, None)}
+       "lea": (b"\x48\x8d\x05\0\0\0\0", 3, 1), "nop": (b"\x90", None, None), "ret": (b"\xc3", None, None),
+       # call *sym@GOTPCREL(%rip) / jmp *sym@GOTPCREL(%rip): control transfers through the symbol whose edge is not direct
+       "icall": (b"\xff\x15\0\0\0\0", 2, 0), "ijmp": (b"\xff\x25\0\0\0\0", 2, 0)}
+CALLS = ("call", "icall")
 ET = {"Branch": 0, "Call": 1, "Fallthrough": 2, "Return": 3}
 
 
@@ -19,7 +22,7 @@ def gen(rnd):
         c["syms"].append(("code", rnd.randrange(nblk)) if k < 0.5 else ("data", rnd.randrange(2)) if k < 0.7 else ("proxy", rnd.randrange(2)) if k < 0.92 else ("none", 0))
     c["blocks"] = []
     for b in range(nblk):
-        kind = rnd.choice(["jmp", "call", "jcc", "lea", "nop", "ret", "jmp", "call"])
+        kind = rnd.choice(["jmp", "call", "jcc", "lea", "nop", "ret", "jmp", "call", "icall", "ijmp"])
         sym = rnd.randrange(nsym) if INS[kind][1] is not None else None
         attrs = []
         if sym is not None and c["syms"][sym][0] in ("proxy", "none") and rnd.random() < 0.7:
@@ -67,7 +70,7 @@ def return_edges(c, rmap):
     func_of = {b: k for k, f in enumerate(funcs) for b in f}
     sites = {}
     for b, (kind, sym, _, _) in enumerate(c["blocks"]):
-        if kind == "call" and b + 1 < len(c["blocks"]):
+        if kind in CALLS and b + 1 < len(c["blocks"]):
             ref = c["syms"][rmap.get(sym, sym)]
             if ref[0] == "code":
                 sites.setdefault(func_of[ref[1]], set()).add(b + 1)
@@ -120,8 +123,8 @@ def build(c):
         tbi.symbolic_expressions[offs[b] + INS[kind][1]] = gtirb.SymAddrConst(addend, syms[sym], {getattr(A, a) for a in attrs})
         ref = syms[sym].referent
         if INS[kind][2] == 0 and ref is not None and isinstance(ref, (gtirb.CodeBlock, gtirb.ProxyBlock)):
-            ir.cfg.add(gtirb.Edge(cblocks[b], ref, gtirb.Edge.Label(gtirb.Edge.Type.Call if kind == "call" else gtirb.Edge.Type.Branch, conditional=(kind == "jcc"), direct=True)))
-        if kind in ("call", "jcc", "lea") and b + 1 < len(cblocks):
+            ir.cfg.add(gtirb.Edge(cblocks[b], ref, gtirb.Edge.Label(gtirb.Edge.Type.Call if kind in CALLS else gtirb.Edge.Type.Branch, conditional=(kind == "jcc"), direct=kind not in ("icall", "ijmp"))))
+        if kind in ("call", "jcc", "lea", "icall") and b + 1 < len(cblocks):
             ir.cfg.add(gtirb.Edge(cblocks[b], cblocks[b + 1], gtirb.Edge.Label(gtirb.Edge.Type.Fallthrough)))
     for (src, dst) in return_edges(c, {}):
         ir.cfg.add(gtirb.Edge(cblocks[src], cblocks[dst] if dst < 100 else proxies[dst - 100], gtirb.Edge.Label(gtirb.Edge.Type.Return)))
@@ -263,8 +266,8 @@ def spec_check(c, out, objs):
         if INS[kind][2] == 0 and old_ref[0] in ("code", "proxy"):
             new_ref = c["syms"][tgt]
             nid = new_ref[1] if new_ref[0] == "code" else 100 + new_ref[1]
-            want.add((b, nid, 1 if kind == "call" else 0))
-        if kind in ("call", "jcc", "lea") and b + 1 < len(cblocks):
+            want.add((b, nid, 1 if kind in CALLS else 0))
+        if kind in ("call", "jcc", "lea", "icall") and b + 1 < len(cblocks):
             want.add((b, b + 1, 2))
     got = {(node_id(e.source, cblocks, dblocks, proxies), node_id(e.target, cblocks, dblocks, proxies), ET[e.label.type.name]) for e in ir.cfg}
     if {x for x in got if x[2] != 3} != want:
